@@ -60,6 +60,22 @@ FirstDue(c, t0) ==
     {FirstDueCode(c, t0)} \cup
     (IF c.fill /\ c.every > 0 /\ c.period <= c.every THEN {Trunc(c, t0 + c.every)} ELSE {})
 
+(* What the first due time means (documentation of fillPeriod/align and the *)
+(* comment in newWindowByTime: "aligned with Every and greater than         *)
+(* now+Period"), stated without the formula.  Checked as an ASSUME by the   *)
+(* MC modules for every configuration and first time in the bound.          *)
+FirstDueMeaning ==
+    \A c \in Configs, t0 \in 0..MaxTime :
+      LET d == FirstDueCode(c, t0) IN
+      /\ c.every > 0 => d > t0                                  \* the first point never emits
+      /\ c.align /\ c.every > 0 => d % c.every = 0
+      /\ ~c.fill => IF c.every = 0 THEN d = t0
+                    ELSE IF c.align THEN d > t0 /\ d <= t0 + c.every   \* the multiple of every in (t0, t0+every]
+                    ELSE d = t0 + c.every
+      /\ c.fill => IF c.align /\ c.every > 0
+                   THEN d > t0 + c.period /\ d - c.every <= t0 + c.period  \* first multiple after a full period
+                   ELSE d = t0 + c.period
+
 (* windowByTime.Point as a function: state x point -> state, emitted batches (0 or 1). *)
 Step(c, s, p) ==
     LET t == PT(p) IN
